@@ -76,6 +76,21 @@ def generate(rng, index: int, tier: str) -> dict:
             else:
                 subs.append({"name": base + "P", "target": tg, "method": "subscribe",
                              "then": [{"name": base + "N", "target": tg, "method": "subscribe"}]})
+    late_resub = []
+    if rng.random() < 0.25:
+        # a zone subscriber that, after a few awaits of its own, unsubscribes the general subscriber of the owning
+        # air-conditioner (while that frame is still being processed); the air-conditioner's subscriber comes back later
+        try:
+            owners = refmodel.Model(gen, inst, common.META).ac_zones
+        except Exception:  # noqa: BLE001
+            owners = {}
+        cands = [(ac, z) for ac, zs in sorted(owners.items()) for z in sorted(zs) if any(x["name"] == f"ac{ac}g" for x in subs)]
+        if cands:
+            ac, z = rng.choice(cands)
+            if not any(x["name"] == f"z{z}K" for x in subs):
+                subs.append({"name": f"z{z}K", "target": ["zone", z], "method": "subscribe", "sub_yields": rng.choice([1, 3, 3]), "then_late": True,
+                             "then": [{"name": f"ac{ac}g", "target": ["ac", ac], "method": "unsubscribe"}]})
+                late_resub.append({"name": f"ac{ac}g", "target": ["ac", ac], "method": "subscribe"})
     if rng.random() < 0.8:
         subs.append({"name": "at", "target": ["at"], "method": "subscribe"})
     if rng.random() < 0.2:
@@ -85,6 +100,8 @@ def generate(rng, index: int, tier: str) -> dict:
     steps = history.console_steps(rng, gen, inst, n, 6.0, 0.5,
                                   kinds=["ac", "ac", "zone", "zone", "timer", "repeat", "repeat", "errtext", "version", "unknown_entity", "unexposed", "multi"])
     tl += steps
+    for r in late_resub:
+        tl.append(dict(r, at=6.0 + 0.5 * rng.randrange(max(1, n // 2), n + 1) + 0.25, op="user.subscribe"))
     # unsubscribe / resubscribe in the gaps
     names = sorted({s["name"] for s in subs})
     for _ in range(rng.choice([0, 1, 2, 4])):
